@@ -114,15 +114,24 @@ func (g *Gen) Scalar() *Node {
 	case "f64":
 		n.U = r.U64()
 	case "bin64":
-		n.Data = r.Bytes(8)
+		n.Data = g.binPayload(8)
 	case "bin128":
-		n.Data = r.Bytes(16)
+		n.Data = g.binPayload(16)
 	case "bin256":
-		n.Data = r.Bytes(32)
+		n.Data = g.binPayload(32)
 	case "bytes", "str":
 		n.Data = r.Bytes(g.payloadSize())
 	}
 	return n
+}
+
+// binPayload: random bytes; one value in four is the zero value (which an encoder may be tempted
+// to treat specially).
+func (g *Gen) binPayload(n int) []byte {
+	if g.R.Intn(4) == 0 {
+		return make([]byte, n)
+	}
+	return g.R.Bytes(n)
 }
 
 func (g *Gen) count() int {
